@@ -404,7 +404,12 @@ class Interp:
         op = BINOPS[type(s.op)]
         if isinstance(t, ast.Name):
             cur = self.lookup(t.id, env, t)
-            self.assign(t, self.binop(op, cur, self.eval(s.value, env), s), env)
+            new = self.binop(op, cur, self.eval(s.value, env), s)
+            hook = getattr(self.domain, "inplace_result", None)
+            if hook is not None:
+                # `x op= y` on an ndarray updates x in place and keeps its identity (aliases see the change)
+                new = hook(self, op, cur, new, s)
+            self.assign(t, new, env)
         elif isinstance(t, ast.Subscript):
             obj = self.eval(t.value, env)
             idx = self.eval_index(t.slice, env)
